@@ -12,8 +12,9 @@
 //   - the Go operator token applied to them,
 //   - how the result is stored (SetInt / SetUint / … / Set(reflect.ValueOf(·).Convert(typ)) / branch).
 //
-// Widening table: for genValueInt/genValueUint/genValueFloat/genComplex/vInt/vUint/vFloat/vComplex, per
-// source kind class, the conversion expression applied to the reflect.Value (v.Int(), int64(v.Uint()), …).
+// Widening table: for genValueInt/genValueUint/genValueShiftCount/genValueFloat/genComplex/vInt/vUint/vFloat/vComplex,
+// per source kind class, the conversion expression applied to the reflect.Value (v.Int(), int64(v.Uint()), …; the
+// statement `_ = 0 << i` of genValueShiftCount, a run-time panic for a negative i, is rendered as `.nonNeg`).
 //
 // Anything the walker does not recognise is emitted as an `unrecognised` constructor plus a line of
 // `def unrecognised`, which the tie theorem requires to be empty.
@@ -35,7 +36,7 @@ import (
 
 // operand: how a Go identifier / expression inside a closure denotes an operand.
 type operand struct {
-	Ext   string // genValueInt, genValueUint, genValueFloat, genComplex, genValue, genValueString, vInt, vUint, vFloat, vComplex, vString, rval, lit1, none
+	Ext   string // genValueInt, genValueUint, genValueShiftCount, genValueFloat, genComplex, genValue, genValueString, vInt, vUint, vFloat, vComplex, vString, rval, lit1, none
 	Child int    // 0, 1 (operand index), 2 = the node itself (n), -1 = n/a
 	Acc   string // accessor applied to a raw reflect.Value: "", String, Complex, Int, Uint, Float, Bool, Interface
 }
@@ -59,7 +60,7 @@ func (o operand) lean() string {
 	return fmt.Sprintf("⟨.%s, %d, .%s⟩", ext, ch, lower(acc))
 }
 
-var knownExt = map[string]bool{"genValueInt": true, "genValueUint": true, "genValueFloat": true, "genComplex": true, "genValue": true,
+var knownExt = map[string]bool{"genValueInt": true, "genValueUint": true, "genValueShiftCount": true, "genValueFloat": true, "genComplex": true, "genValue": true,
 	"genValueString": true, "vInt": true, "vUint": true, "vFloat": true, "vComplex": true, "vString": true, "rval": true, "lit1": true, "none": true}
 var knownAcc = map[string]bool{"none": true, "String": true, "Complex": true, "Int": true, "Uint": true, "Float": true, "Bool": true, "Interface": true}
 
@@ -195,7 +196,7 @@ func childOf(e ast.Expr) (int, bool) {
 func (w *walker) bindCall(c *ctx, name string, call *ast.CallExpr) {
 	fn := src(call.Fun)
 	switch fn {
-	case "genValueInt", "genValueUint", "genValueFloat", "genComplex", "genValue", "genValueString", "vInt", "vUint", "vFloat", "vComplex", "vString":
+	case "genValueInt", "genValueUint", "genValueShiftCount", "genValueFloat", "genComplex", "genValue", "genValueString", "vInt", "vUint", "vFloat", "vComplex", "vString":
 		if len(call.Args) == 1 {
 			if ch, ok := childOf(call.Args[0]); ok {
 				if ch == 2 { // dest := genValue(n)
@@ -642,11 +643,16 @@ type widenEntry struct {
 	Fn, Cls, Conv string
 }
 
-// convExpr renders the conversion applied to v as a Lean term of type Conv.
-func convExpr(e ast.Expr) string {
+// convExpr renders the conversion applied to v as a Lean term of type Conv. env: local variables of the extractor's
+// closure bound to a conversion of v (`i := v.Int()`).
+func convExpr(e ast.Expr, env map[string]string) string {
 	switch x := e.(type) {
 	case *ast.ParenExpr:
-		return convExpr(x.X)
+		return convExpr(x.X, env)
+	case *ast.Ident:
+		if c, ok := env[x.Name]; ok {
+			return c
+		}
 	case *ast.CallExpr:
 		f := src(x.Fun)
 		switch f {
@@ -660,11 +666,11 @@ func convExpr(e ast.Expr) string {
 			return ".complex"
 		case "int8", "int16", "int32", "int64", "int", "uint8", "uint16", "uint32", "uint64", "uint", "uintptr", "float32", "float64", "real":
 			if len(x.Args) == 1 {
-				return "(.cast ." + castName(f) + " " + convExpr(x.Args[0]) + ")"
+				return "(.cast ." + castName(f) + " " + convExpr(x.Args[0], env) + ")"
 			}
 		case "complex":
 			if len(x.Args) == 2 && src(x.Args[1]) == "0" {
-				return "(.cast .complexRe " + convExpr(x.Args[0]) + ")"
+				return "(.cast .complexRe " + convExpr(x.Args[0], env) + ")"
 			}
 		}
 	}
@@ -678,9 +684,55 @@ func castName(s string) string {
 	return "t" + strings.ToUpper(s[:1]) + s[1:]
 }
 
+// closureConv interprets the body of an extractor's closure
+//
+//	func(f *frame) (reflect.Value, T) { v := value(f); [NAME := CONV;] [_ = 0 << NAME;] return v, CONV }
+//
+// and returns the conversion of v it yields. `_ = 0 << NAME` (a run-time panic for a negative signed NAME) wraps the
+// conversion bound to NAME in `.nonNeg`. Any other statement makes the result unrecognised.
+func closureConv(fl *ast.FuncLit) string {
+	env := map[string]string{}
+	n := len(fl.Body.List)
+	for k, s := range fl.Body.List {
+		switch st := s.(type) {
+		case *ast.AssignStmt:
+			if len(st.Lhs) != 1 || len(st.Rhs) != 1 {
+				return "(.unrecognised)"
+			}
+			lhs := src(st.Lhs[0])
+			switch {
+			case st.Tok == token.DEFINE && lhs == "v" && src(st.Rhs[0]) == "value(f)":
+			case st.Tok == token.DEFINE && lhs != "_":
+				env[lhs] = convExpr(st.Rhs[0], env)
+			case st.Tok == token.ASSIGN && lhs == "_":
+				// _ = 0 << NAME
+				be, ok := st.Rhs[0].(*ast.BinaryExpr)
+				if !ok || be.Op != token.SHL || src(be.X) != "0" {
+					return "(.unrecognised)"
+				}
+				id, ok := be.Y.(*ast.Ident)
+				if !ok || env[id.Name] == "" {
+					return "(.unrecognised)"
+				}
+				env[id.Name] = "(.nonNeg " + env[id.Name] + ")"
+			default:
+				return "(.unrecognised)"
+			}
+		case *ast.ReturnStmt:
+			if k != n-1 || len(st.Results) == 0 {
+				return "(.unrecognised)"
+			}
+			return convExpr(st.Results[len(st.Results)-1], env)
+		default:
+			return "(.unrecognised)"
+		}
+	}
+	return "(.unrecognised)"
+}
+
 // widenOf walks a genValueXxx / vXxx function: `switch KIND { case reflect.Int…: <return closure | i = EXPR> }`.
-func widenOf(fd *ast.FuncDecl, unrec *[]string) []widenEntry {
-	var out []widenEntry
+// delegate: the function ends with `return OTHER(n)`: the kind classes without an arm of their own are OTHER's.
+func widenOf(fd *ast.FuncDecl, unrec *[]string) (out []widenEntry, delegate string) {
 	name := fd.Name.Name
 	var sw *ast.SwitchStmt
 	for _, s := range fd.Body.List {
@@ -690,7 +742,19 @@ func widenOf(fd *ast.FuncDecl, unrec *[]string) []widenEntry {
 	}
 	if sw == nil {
 		*unrec = append(*unrec, name+": no kind switch")
-		return nil
+		return nil, ""
+	}
+	if tag := src(sw.Tag); tag != "n.typ.TypeOf().Kind()" && tag != "v.Type().Kind()" && tag != "v.Kind()" {
+		*unrec = append(*unrec, name+": switch tag "+tag)
+	}
+	if last, ok := fd.Body.List[len(fd.Body.List)-1].(*ast.ReturnStmt); ok && len(last.Results) == 1 {
+		if call, ok := last.Results[0].(*ast.CallExpr); ok {
+			if len(call.Args) == 1 && src(call.Args[0]) == "n" && strings.HasPrefix(src(call.Fun), "genValue") {
+				delegate = src(call.Fun)
+			} else {
+				*unrec = append(*unrec, name+": final "+src(last))
+			}
+		}
 	}
 	// vXxx: `if c := vConstantValue(v); c != nil { i, _ = constant.Int64Val(constant.ToInt(c)); return i }`
 	if first, ok := fd.Body.List[0].(*ast.IfStmt); ok && first.Init != nil && src(first.Init) == "c := vConstantValue(v)" {
@@ -723,14 +787,13 @@ func widenOf(fd *ast.FuncDecl, unrec *[]string) []widenEntry {
 				// return func(f *frame) (reflect.Value, int64) { v := value(f); return v, CONV }   |   return func(f) complex128 { return CONV }
 				if len(x.Results) == 1 {
 					if fl, ok := x.Results[0].(*ast.FuncLit); ok {
-						last := fl.Body.List[len(fl.Body.List)-1].(*ast.ReturnStmt)
-						conv = convExpr(last.Results[len(last.Results)-1])
+						conv = closureConv(fl)
 						return false
 					}
 				}
 			case *ast.AssignStmt:
 				if x.Tok == token.ASSIGN && len(x.Lhs) == 1 && (src(x.Lhs[0]) == "i" || src(x.Lhs[0]) == "c") {
-					conv = convExpr(x.Rhs[0])
+					conv = convExpr(x.Rhs[0], nil)
 					return false
 				}
 			}
@@ -744,7 +807,7 @@ func widenOf(fd *ast.FuncDecl, unrec *[]string) []widenEntry {
 		}
 		out = append(out, widenEntry{name, cls, conv})
 	}
-	return out
+	return out, delegate
 }
 
 func main() {
@@ -784,13 +847,32 @@ func main() {
 			w.stmts(c, fd.Body.List)
 		}
 		var widen []widenEntry
-		for _, name := range []string{"genValueInt", "genValueUint", "genValueFloat", "genComplex", "vInt", "vUint", "vFloat", "vComplex"} {
+		byName := map[string][]widenEntry{}
+		for _, name := range []string{"genValueInt", "genValueUint", "genValueShiftCount", "genValueFloat", "genComplex", "vInt", "vUint", "vFloat", "vComplex"} {
 			fd := common.FindFunc(valf, "", name)
 			if fd == nil {
 				w.unrec = append(w.unrec, "value.go: func "+name+" not found")
 				continue
 			}
-			widen = append(widen, widenOf(fd, &w.unrec)...)
+			es, delegate := widenOf(fd, &w.unrec)
+			if delegate != "" {
+				// `return genValueUint(n)` after the switch: the remaining kind classes are read as genValueUint reads them
+				target, ok := byName[delegate]
+				if !ok {
+					w.unrec = append(w.unrec, "value.go: "+name+" delegates to "+delegate+", which was not walked before it")
+				}
+				own := map[string]bool{}
+				for _, e := range es {
+					own[e.Cls] = true
+				}
+				for _, e := range target {
+					if !own[e.Cls] {
+						es = append(es, widenEntry{name, e.Cls, e.Conv})
+					}
+				}
+			}
+			byName[name] = es
+			widen = append(widen, es...)
 		}
 		sort.Strings(fns)
 
